@@ -40,7 +40,7 @@ var zonePool = []string{"UTC", "America/Los_Angeles", "America/New_York", "Asia/
 
 // basePool: windows of log days that contain or follow a daylight-saving change (US 2021-03-14 and
 // 2021-11-07, EU 2021-03-28 and 2021-10-31, Lord Howe 2021-04-04 and 2021-10-03), the year end and a leap day (incl. the end of a leap year).
-var basePool = []string{"2021-01-20", "2021-03-10", "2021-03-24", "2021-10-27", "2021-11-03", "2021-04-01", "2021-09-29", "2021-12-27", "2024-02-25", "2021-03-16", "2021-11-20", "2020-12-27", "2024-12-28", "2020-02-26"}
+var basePool = []string{"2021-01-20", "2021-03-10", "2021-03-24", "2021-10-27", "2021-11-03", "2021-04-01", "2021-09-29", "2021-12-27", "2024-02-25", "2021-03-16", "2021-11-20", "2020-12-27", "2024-12-28", "2020-02-26", "2921-01-20", "1021-01-20", "0001-01-20", "9999-12-01", "1677-09-18", "2262-04-08"}
 
 var clockPool = []int64{
 	time.Date(2021, 1, 25, 0, 0, 0, 0, time.UTC).UnixNano(),
@@ -76,7 +76,8 @@ func genC06(thorough bool) func(t *rapid.T) Case {
 			layout = "2006-01-02"
 		}
 		c.Base = rapid.SampledFrom(basePool).Draw(t, "base_day")
-		c.CLI = genCLIBase(t, baseOpts{shapes: names, book: BookOpts{MaxRecipes: 4}, log: LogOpts{MaxDays: 8, MinDays: 1, Window: c06Window, Layout: layout, Base: c.base()}})
+		c.CLI = genCLIBase(t, baseOpts{shapes: names, book: BookOpts{MaxRecipes: 4}, log: LogOpts{MaxDays: 8, MinDays: 1, Window: c06Window, Layout: layout, Base: c.base(),
+			Chrono: c.Kind != "grid" && rapid.IntRange(0, 5).Draw(t, "chronological_diary") == 5}})
 		c.CLI.Inv.Date = c.base().AddDate(0, 0, rapid.IntRange(-1, c06Window).Draw(t, "summary_off")).Format(layout)
 		c.Zone = rapid.SampledFrom(zonePool).Draw(t, "zone")
 		c.Zone2 = rapid.SampledFrom(zonePool).Draw(t, "zone2")
@@ -423,7 +424,8 @@ func genC12(thorough bool) func(t *rapid.T) Case {
 		c.Integer = rapid.IntRange(0, 2).Draw(t, "decimal") < 2
 		c.Book = genBook(t, BookOpts{MaxRecipes: 6, ExactOnly: true})
 		c.Blocks = genLog(t, c.Book, LogOpts{MinDays: 2, MaxDays: 9, Window: 4, ExactOnly: c.Integer,
-			LongDays: rapid.IntRange(0, 5).Draw(t, "long_days") == 5, Pad: rapid.IntRange(0, 7).Draw(t, "pad") == 7})
+			LongDays: rapid.IntRange(0, 5).Draw(t, "long_days") == 5, Pad: rapid.IntRange(0, 7).Draw(t, "pad") == 7,
+			Chrono: rapid.IntRange(0, 7).Draw(t, "chronological_diary") == 7})
 		if c.Integer {
 			toInt := func(bs []Block) {
 				for i := range bs {
